@@ -166,11 +166,38 @@ def rebuild(mol, model, astereo, bstereo):
     for n in ra:
         r.calc_implicit(n)
     r.flush_cache()
-    for n, s in astereo.items():
-        ra[n]._stereo = s
-    for (n, m), s in bstereo.items():
-        rb[n][m]._stereo = s
-    r.fix_stereo()
+    # Labels are attached through the public labelling calls, one at a time, retried until no further label is
+    # accepted (the way the file readers do it).  This path does not go through fix_stereo(), which is one of the
+    # routines under test; a label that is not accepted because its centre is not (yet) stereogenic stays off.
+    from chython.exceptions import NotChiral, IsChiral
+    pending = [('a', n, s) for n, s in astereo.items()] + [('b', k, s) for k, s in bstereo.items()]
+    while pending:
+        rest = []
+        for kind, key, s in pending:
+            try:
+                if kind == 'a':
+                    if key in r.stereogenic_tetrahedrons:
+                        r.add_atom_stereo(key, r.stereogenic_tetrahedrons[key], s)
+                    elif key in r.stereogenic_allenes:
+                        e = r.stereogenic_allenes[key]
+                        r.add_atom_stereo(key, (e[0], e[1]), s)
+                    else:
+                        continue   # not a stereogenic centre any more: label cannot be carried
+                else:
+                    n, m = key
+                    t = r._stereo_cis_trans_terminals.get(n)
+                    if t is None or t != r._stereo_cis_trans_terminals.get(m) or \
+                            set(r._stereo_cis_trans_centers[t[0]]) != {n, m}:
+                        continue   # not the central bond of a stereogenic double-bond unit
+                    e = r.stereogenic_cis_trans[t]
+                    r.add_cis_trans_stereo(t[0], t[1], e[0], e[1], s)
+            except NotChiral:
+                rest.append((kind, key, s))
+            except IsChiral:
+                pass
+        if len(rest) == len(pending):
+            break
+        pending = rest
     r.flush_cache()
     return r
 
@@ -278,6 +305,11 @@ OBSERVERS = [
     ('environment', lambda m: [(n, tuple(m.environment(n, include_bond=False, include_atom=False))) for n in m]),
 ]
 OBS_INDEX = {k: i for i, (k, _) in enumerate(OBSERVERS)}
+# pure functions of the graph alone: may be read (and must be right) inside an open transaction, where atom labels are
+# deliberately not recalculated
+GRAPH_ONLY = ['sssr', 'rings_count', 'atoms_rings', 'atoms_rings_sizes', 'not_special_connectivity',
+              'connected_components', 'connected_components_count', 'skin_graph', 'rings_graph', 'bonds_count',
+              'adjacency_matrix', 'adjacency_matrix_b', 'int_adjacency', 'len', 'environment', 'cumulenes']
 
 
 def observe(mol, name):
